@@ -4,6 +4,12 @@
             n  n x pod id be active pol prionil prio enabled evprio haslab lab hasmetric used
                        req0 req1 req2
             oracle     a (pod){a}  f (0|1){f}  g (0|1){g}          (as in stream "kill")
+            optional trailer (absent = no further containers, BECPUEvict unconfigured):
+            m  m x ctr pod kind req0 req1 req2      further containers of the pods, in order
+                       (kind 0 regular, 1 init, 2 sidecar = init container with restartPolicy Always)
+            29 x becfg policy lowF low upF up uthrF uthr winF win interval shift
+                       6 x (ok val cnt): avg usage, avg request, avg real limit, last usage, last
+                       request, last real limit of the node BE cpu metric (value = val / 2^shift)
    observable : three victim lists  (n (id){n}) x 3   then   E  E x (kind feature pod ok)  *)
 From Coq Require Import List ZArith Bool.
 From Verif Require Import Lib.Wire C11.Model C11.Spec C11.ModelEvict C11.SpecEvict.
@@ -26,17 +32,44 @@ Definition dec_pod (l : list Z) : epod * list Z :=
   | _ => (mkEpod 0 false false 0 false 0 false 0 false 0 false 0 0 0 0, [])
   end.
 
+Definition dec_ctr (l : list Z) : ctr * list Z :=
+  match l with
+  | a1 :: a2 :: a3 :: a4 :: a5 :: t => (mkCtr a1 a2 a3 a4 a5, t)
+  | _ => (mkCtr 0 0 0 0 0, [])
+  end.
+
+Definition dec_bm (l : list Z) : bmetric * list Z :=
+  match l with
+  | a1 :: a2 :: a3 :: t => (mkBm (zb a1) a2 a3, t)
+  | _ => (mkBm false 0 0, [])
+  end.
+
+Definition dec_becfg (l : list Z) : becfg :=
+  match l with
+  | a1 :: a2 :: a3 :: a4 :: a5 :: a6 :: a7 :: a8 :: a9 :: a10 :: a11 :: t =>
+      let '(m1, t1) := dec_bm t in
+      let '(m2, t2) := dec_bm t1 in
+      let '(m3, t3) := dec_bm t2 in
+      let '(m4, t4) := dec_bm t3 in
+      let '(m5, t5) := dec_bm t4 in
+      let '(m6, _) := dec_bm t5 in
+      mkBecfg (zb a1) (zb a2) a3 (zb a4) a5 (zb a6) a7 (zb a8) a9 a10 a11 m1 m2 m3 m4 m5 m6
+  | _ => let m := mkBm false 0 0 in
+         mkBecfg false false 0 false 0 false 0 false 0 0 0 m m m m m m
+  end.
+
 Record einput := mkEinput {
   ei_cfg : ecfg; ei_pods : list epod;
-  ei_already : list Z; ei_flips : list Z; ei_fails : list Z }.
+  ei_already : list Z; ei_flips : list Z; ei_fails : list Z; ei_be : becfg }.
 
 Definition dec_einput (inp : list Z) : einput :=
   let '(c, r0) := dec_cfg inp in
   let '(ps, r1) := decode_seq dec_pod r0 in
   let '(al, r2) := take_list r1 in
   let '(fl, r3) := take_list r2 in
-  let '(fa, _) := take_list r3 in
-  mkEinput c ps al fl fa.
+  let '(fa, r4) := take_list r3 in
+  let '(ex, r5) := decode_seq dec_ctr r4 in
+  mkEinput c (map (with_ctrs ex) ps) al fl fa (dec_becfg r5).
 
 Definition pend_of (i : einput) : nat -> pod -> bool :=
   fun n p => xorb (memZ p (ei_already i)) (zb (nth n (ei_flips i) 0)).
